@@ -543,6 +543,121 @@ pub struct Property {
     pub parts: Vec<Box<dyn Part>>,
 }
 
+/// cargo-fuzz targets (harness/fuzz) that extend the thorough tier of a property with a
+/// coverage-guided byte-level campaign; (target, runs)
+pub fn fuzz_targets_of(property: &str) -> Vec<(&'static str, u64)> {
+    match property {
+        "C02" => vec![("diff", 3_000_000)],
+        "C06" => vec![("markdown", 3_000_000)],
+        "C07" => vec![("cram", 3_000_000)],
+        "C08" => vec![("expectation", 3_000_000)],
+        "C11" => vec![("escape", 5_000_000)],
+        "C19" => vec![("render", 1_000_000)],
+        _ => vec![],
+    }
+}
+
+pub struct FuzzOutcome {
+    pub target: String,
+    pub runs: u64,
+    pub crash: Option<(String, String)>,
+    pub skipped: Option<String>,
+}
+
+/// run one libFuzzer campaign with fixed work (-runs) and a fresh corpus
+pub fn run_fuzz(property: &str, target: &str, runs: u64, seed: u64) -> FuzzOutcome {
+    let mut out = FuzzOutcome { target: target.to_string(), runs: 0, crash: None, skipped: None };
+    let corpus = Path::new(VERIF_ROOT).join("work").join(property).join(format!("fuzz-corpus-{target}"));
+    let _ = std::fs::remove_dir_all(&corpus);
+    if std::fs::create_dir_all(&corpus).is_err() {
+        out.skipped = Some("cannot create corpus directory".into());
+        return out;
+    }
+    // a few small valid inputs from the repository next to the empty input
+    let seeds: Vec<PathBuf> = match target {
+        "markdown" => list_ext(Path::new("/repo/selftest/cases"), "md", 12),
+        "cram" => list_ext(Path::new("/repo/selftest/cases"), "t", 12),
+        _ => vec![],
+    };
+    for (i, f) in seeds.iter().enumerate() {
+        if let Ok(b) = std::fs::read(f) {
+            if b.len() <= 4096 {
+                let _ = std::fs::write(corpus.join(format!("seed{i}")), b);
+            }
+        }
+    }
+    let _ = std::fs::write(corpus.join("empty"), b"");
+    let art_dir = Path::new(VERIF_ROOT).join("replays").join(property);
+    let _ = std::fs::create_dir_all(&art_dir);
+    let prefix = format!("{}/fuzz-{target}-", art_dir.display());
+    let mut cmd = std::process::Command::new("cargo");
+    cmd.current_dir(Path::new(VERIF_ROOT).join("harness"))
+        .args(["+nightly", "fuzz", "run", "-O", "--fuzz-dir", "fuzz", target])
+        .arg(&corpus)
+        .arg("--")
+        .arg(format!("-runs={runs}"))
+        .arg(format!("-seed={}", if seed == 0 { 1 } else { seed % 4_000_000_000 }))
+        .args(["-max_len=2048", "-len_control=0", "-print_final_stats=1", "-verbosity=0"])
+        .arg(format!("-artifact_prefix={prefix}"))
+        .env("CARGO_NET_OFFLINE", "true")
+        .env("CARGO_TARGET_DIR", "/verif/target/fuzz")
+        .env("RUST_BACKTRACE", "0");
+    let result = cmd.output();
+    let _ = std::fs::remove_dir_all(&corpus);
+    let output = match result {
+        Ok(o) => o,
+        Err(e) => {
+            out.skipped = Some(format!("cargo fuzz could not be started: {e}"));
+            return out;
+        }
+    };
+    let stderr = String::from_utf8_lossy(&output.stderr).to_string();
+    for line in stderr.lines() {
+        if let Some(n) = line.strip_prefix("stat::number_of_executed_units:") {
+            out.runs = n.trim().parse().unwrap_or(0);
+        }
+    }
+    if !output.status.success() {
+        // a crash leaves an artifact; anything else (build failure, toolchain missing) is a skip
+        let artifact = stderr
+            .lines()
+            .filter_map(|l| l.split("Test unit written to ").nth(1))
+            .next()
+            .map(|p| p.trim().to_string());
+        match artifact {
+            Some(a) => {
+                let msg = stderr
+                    .lines()
+                    .find(|l| l.contains("ORACLE FAILURE") || l.contains("panicked at"))
+                    .unwrap_or("crash")
+                    .to_string();
+                out.crash = Some((a, msg));
+            }
+            None => {
+                out.skipped = Some(format!(
+                    "fuzz stage did not run: {}",
+                    stderr.lines().rev().find(|l| !l.trim().is_empty()).unwrap_or("")
+                ));
+            }
+        }
+    }
+    out
+}
+
+fn list_ext(dir: &Path, ext: &str, max: usize) -> Vec<PathBuf> {
+    let mut v: Vec<PathBuf> = std::fs::read_dir(dir)
+        .map(|rd| {
+            rd.filter_map(|e| e.ok())
+                .map(|e| e.path())
+                .filter(|p| p.extension().map(|e| e == ext).unwrap_or(false))
+                .collect()
+        })
+        .unwrap_or_default();
+    v.sort();
+    v.truncate(max);
+    v
+}
+
 pub struct RunSummary {
     pub violations: Vec<Violation>,
 }
@@ -561,6 +676,19 @@ fn list_json(dir: &Path) -> Vec<PathBuf> {
 }
 
 pub fn replay_file(prop: &Property, path: &Path) -> Result<(String, V), String> {
+    // artifacts of the fuzz stage are raw inputs named fuzz-<target>-<kind>-<hash>
+    if let Some(name) = path.file_name().and_then(|n| n.to_str()) {
+        if let Some(rest) = name.strip_prefix("fuzz-") {
+            let target = rest.split('-').next().unwrap_or("");
+            let data = std::fs::read(path).map_err(|e| format!("read {path:?}: {e}"))?;
+            let r = crate::fuzz::run_target(target, &data)?;
+            let _ = prop;
+            return Ok((format!("fuzz/{target}"), match r {
+                Some(m) => V::fail(m),
+                None => V::pass(),
+            }));
+        }
+    }
     let text = std::fs::read_to_string(path).map_err(|e| format!("read {path:?}: {e}"))?;
     let body: Value = serde_json::from_str(&text).map_err(|e| format!("parse {path:?}: {e}"))?;
     let part = body["part"].as_str().unwrap_or("").to_string();
@@ -667,6 +795,33 @@ pub fn run_property(prop: &Property, ctx: &Ctx) -> i32 {
         reports.push(rep);
     }
 
+    // 4. thorough tier: coverage-guided byte-level campaigns (libFuzzer via cargo-fuzz)
+    let mut fuzz_report = vec![];
+    if ctx.tier == Tier::Thorough && std::env::var("VERIF_NO_FUZZ").is_err() {
+        for (target, runs) in fuzz_targets_of(prop.id) {
+            let t = Instant::now();
+            let runs = ((runs as f64) * ctx.scale).max(1000.0) as u64;
+            let f = run_fuzz(prop.id, target, runs, ctx.seed);
+            eprintln!(
+                "[{}] fuzz {:<20} runs={:<9} crash={} {} ({:.1}s)",
+                prop.id,
+                f.target,
+                f.runs,
+                f.crash.is_some(),
+                f.skipped.clone().unwrap_or_default(),
+                t.elapsed().as_secs_f64()
+            );
+            if let Some((artifact, message)) = &f.crash {
+                violations.push(Violation {
+                    part: format!("fuzz/{target}"),
+                    message: message.clone(),
+                    replay: artifact.clone(),
+                });
+            }
+            fuzz_report.push(json!({"target": f.target, "runs": f.runs, "crashed": f.crash.is_some(), "skipped": f.skipped}));
+        }
+    }
+
     let mut evaluations = regression_count;
     let mut distinct = 0u64;
     let mut unasserted = 0u64;
@@ -728,6 +883,9 @@ pub fn run_property(prop: &Property, ctx: &Ctx) -> i32 {
     });
     for (k, v) in extra {
         coverage[k] = v;
+    }
+    if !fuzz_report.is_empty() {
+        coverage["fuzz_runs"] = json!(fuzz_report);
     }
     let evidence = json!({
         "property_id": prop.id,
